@@ -672,4 +672,28 @@ example : cijklSetRaw (rot (rotZ (3 / 5 : ℚ) (4 / 5)) (cijklGet (m6 (ctor_C11_
 
 end audit
 
+section audit2
+-- `invariance_group`: the cubic tensor under the product of two of its four-fold rotations, and under an inverse
+example : rot (mmul (R4z : M33 ℚ) R4x) (cijklGet (m6 (ctor_C11_C12_C44 (3 : ℚ) 1 2))) = cijklGet (m6 (ctor_C11_C12_C44 (3 : ℚ) 1 2)) :=
+  (invariance_group _ R4z R4x (system_invariant_cubic (3 : ℚ) 1 2).1 (system_invariant_cubic (3 : ℚ) 1 2).2.1).1
+-- `cijkl_setter_complete`: the checks of the setter hold on the tensor of a symmetric matrix
+example : MinorSymm (cijklGet (m6 (ctor_C11_C12_C44 (3 : ℚ) 1 2))) ∧ MajorSymm (cijklGet (m6 (ctor_C11_C12_C44 (3 : ℚ) 1 2))) :=
+  cijkl_setter_complete _ (by decide +kernel)
+-- `setCij_idem`: what the setter stores for the cubic matrix is stored unchanged a second time
+example : ∃ n, setCij (m6 (ctor_C11_C12_C44 (3 : ℚ) 1 2)) = .ok n ∧ setCij n = .ok n := by
+  have hs : Symm6 (m6 (ctor_C11_C12_C44 (3 : ℚ) 1 2)) := by unfold Symm6; decide
+  have h := (cij_setter_symm _ hs).1 (by decide +kernel)
+  exact ⟨_, h, setCij_idem _ _ hs h⟩
+-- `init_matrix_mixed_refused`: a matrix keyword together with a named constant
+example : initRoute ["Cij", "C11"] = .assertFail :=
+  init_matrix_mixed_refused _ (by decide) (by decide)
+-- `object_set_overwrites` / `object_refused_set` / `object_reads_pure`: their hypotheses on concrete operations
+example : (Op.putCij (m6 (ctor_C11_C12_C44 (3 : ℚ) 1 2))).store? (fun _ => none) = some (setCij (m6 (ctor_C11_C12_C44 (3 : ℚ) 1 2))) ∧
+    (∀ o ∈ ([.getCij, .getCijkl, .est "bulk" "Voigt"] : List (Op ℚ)), o.store? (fun _ => none) = none) := by
+  refine ⟨rfl, ?_⟩
+  intro o ho
+  simp at ho
+  rcases ho with rfl | rfl | rfl <;> rfl
+end audit2
+
 end Atomman.C11
